@@ -386,6 +386,7 @@ pub fn case(ctx: &mut Ctx, idx: u64) {
                     cl,
                     cl_setting: None,
                     lazer_via_setter: n_cfg % 2 == 1,
+                    ticks: [None; 3],
                     passed: None,
                 };
                 // grid of target accuracies
@@ -497,6 +498,7 @@ fn via_map(ctx: &mut Ctx, rng: &mut Rng) {
             cl,
             cl_setting: if mode == GameMode::Osu && cl && lazer != Some(false) { *rng.pick(&[None, Some(true), Some(false)]) } else { None },
             lazer_via_setter: rng.chance(0.5),
+            ticks: [None; 3],
             passed: None,
         };
         let mut targets: Vec<f64> = (0..6).map(|_| rng.frange(0.0, 100.0)).collect();
